@@ -85,6 +85,21 @@ where
     }
 }
 
+impl<F: Future> Drop for JoinAll<F> {
+    fn drop(&mut self) {
+        // `MaybeUninit` never drops its contents: release the outputs written so far.
+        // An entry is initialised exactly when its future has completed, i.e. when its slot
+        // in the queue is vacant (after completion `output` is empty).
+        let mut output = core::mem::replace(&mut self.output, Vec::new().into_boxed_slice());
+        for (i, out) in output.iter_mut().enumerate() {
+            if self.queue.tasks.get(i).is_none() {
+                // SAFETY: slot `i` is vacant, so `output[i]` was written
+                unsafe { out.assume_init_drop() };
+            }
+        }
+    }
+}
+
 impl<F: Future> Future for JoinAll<F> {
     type Output = Vec<F::Output>;
 
